@@ -148,7 +148,7 @@ def run(ctx):
     # the oracle: every schedule gives the result of the first one.
     xs = [("httphead", c) for c in configs(ctx)[1:4]] + [("httpup", c) for c in configs(ctx)[1:]] + [("redissub", c) for c in configs(ctx)[:4]] + [("kafkadesc", c) for c in configs(ctx)[1:4]]
     # every message in two segments, every Read a scheduling point (a half can run while the other half's message is only partly there)
-    xs += [(p + "+rd", c) for p in ("kafka", "redis", "http", "amqp", "http2") for c in configs(ctx)[:2]]
+    xs += [(p + "+rd", c) for p in ("kafka", "redis", "http", "amqp", "http2", "kafkaslack") for c in configs(ctx)[:2]]
     for xproto, cfg in xs:
         args = ["conc", xproto, str(max_runs)] + ["%d:%s:%s" % (c, d, ",".join(map(str, ps))) for c, d, ps in cfg]
         rc, out = ctx.vh("vh-match", args, timeout=2400)
